@@ -207,6 +207,12 @@ func (c *cluster) propose(x *nn, size int) {
 	p := &proposal{payload: payload}
 	c.props[payload] = p
 	ctx, cancel := ctxFor(300 * time.Millisecond)
+	if rapid.IntRange(0, 3).Draw(c.rt, "expired") == 0 {
+		// the caller's deadline expires while the proposal is on its way to
+		// node.run: whatever Propose returns must still be the truth
+		cancel()
+		c.classes["node.propose_with_expired_context"] = true
+	}
 	err := x.n.Propose(ctx, []byte(payload))
 	cancel()
 	switch {
